@@ -47,12 +47,18 @@ impl ChangesFeed {
     pub fn send_replace(&self, value: LocalChangeEvent) { unimplemented!() }
 }
 
-/// R12: `$xs.iter().map(|c| *c.as_ref()).collect::<Vec<_>>()` on `Vec<CommitHash>`
-/// (DESIGN 2.2 `vmap_as_ref`): the wrapped hashes, in order
+/// R12: `$xs.iter().map($f).collect::<Vec<_>>()` on a `Vec<T>` — std meaning
+/// (iter/adapters/map.rs, Vec: FromIterator): `$f` is called once per element, in
+/// order, and the results are collected in that order.  The closure stays
+/// extracted code (`|c| $body` re-inserted verbatim by the rewrite in
+/// units/log.vrs); this contract only quantifies over ITS post-condition.
+/// The closure comes first and the vector last so that the rewritten statement
+/// ends in `, &$xs);` (a hint of apply_records is anchored on that tail).
 #[verifier::external_body]
-pub fn vmap_as_ref(xs: &Vec<CommitHash>) -> (r: Vec<TreeHash>)
-    ensures r@.len() == xs@.len(), forall|i: int| 0 <= i < xs@.len() ==> #[trigger] r@[i] == xs@[i].0,
-{ unimplemented!() }
+pub fn vmap_collect<T, U, F: Fn(&T) -> U>(f: F, xs: &Vec<T>) -> (r: Vec<U>)
+    requires forall|x: &T| #[trigger] f.requires((x,)),
+    ensures r@.len() == xs@.len(), forall|i: int| 0 <= i < xs@.len() ==> f.ensures((&xs@[i],), #[trigger] r@[i]),
+{ xs.iter().map(f).collect::<Vec<_>>() }
 
 /// R12: `$s.to_vec()` on `&[EventRecord]` (alloc::slice::to_vec: clones every element)
 #[verifier::external_body]
